@@ -4,6 +4,7 @@ from .. import env
 from .c01 import hv
 
 PROPERTY = "C11"
+CROSS_CHECK = True      # thorough: dumped assertion queries are re-decided by z3 4.8.12 and cvc5 1.0
 LEVEL = "model_checking"
 STUBS = ["open / mmap / MMap / resolve_path / is_valid_file / copyfile / Path -> VFS model with an ordered effect log (pvx/vfs.py)",
          "array/bytes/int/Struct shadows", "concrete replays: real files, a recording mmap subclass and a recording file proxy"]
